@@ -88,7 +88,7 @@ For each variant V in {{{v1}, {v2}}} create the directory `{wt}/seed_out/V/` wit
   ```
 
 Work on one variant at a time: edit, write the demo, run the demo with and without the
-change (`git stash` / `git diff > seed_out/V/patch.diff; git checkout -- .`), run the test
+change (`git diff > seed_out/V/patch.diff; git checkout -- .` and `git apply seed_out/V/patch.diff` — NEVER use `git stash`: the stash is shared with other engineers' worktrees of the same repository), run the test
 suite with the change, save the three files, **restore the tree to clean** (`git checkout
 -- .`, remove the copied demo), then do the second variant. Leave the worktree clean at the
 end (only `seed_out/` and this brief untracked). Do not write anything outside `{wt}`
@@ -117,6 +117,10 @@ def main():
             r = sh("git -C /repo worktree add --detach %s HEAD" % wt)
             if r.returncode != 0:
                 print(pid, "worktree failed:", r.stdout[-300:]); continue
+        elif not os.path.exists(os.path.join(wt, "seed_out")):
+            # an unused worktree of an earlier HEAD: bring it to the current one
+            head = sh("git -C /repo rev-parse HEAD").stdout.strip()
+            sh("git -C %s checkout -q --detach %s" % (wt, head))
         earlier = []
         for d in sorted(glob.glob("/verif/seeded/%s-*" % pid)):
             try:
